@@ -13,9 +13,9 @@ from harness.tr import mk_array
 EVIDENCE = {
     "functions": ["transformation.translation/rotation/scaling/reflection/affine_transform/identity", "Transformation.from_points", "PointLikeTensor._normalize_array", "LineTensor.basis_matrix/base_point (reflection)",
                   "base.TensorDiagram (rotation about an axis)", "utils.math.outer"],
-    "bounds": "2-D and 3-D; offsets, angles (a symbolic angle: cos/sin pair with c^2+s^2=1, addition theorem), axis directions (free reals, arbitrary non-zero weight of the axis point), scale "
+    "bounds": "2-D and 3-D; rotation about an axis: also independence of the weight (sign) of the axis point for 3 lattice axes; offsets, angles (a symbolic angle: cos/sin pair with c^2+s^2=1, addition theorem), axis directions (free reals, arbitrary non-zero weight of the axis point), scale "
               "factors, mirror lines and 4-point frames are free reals",
-    "outside": "numeric value of cos/sin, reflection at a plane in 3-D (QR stub; thorough), from_points in 3-D (thorough), from_points_and_conics (nested complex radicals; not claimed), rounding",
+    "outside": "numeric value of cos/sin, reflection at a plane in 3-D (QR stub; thorough), from_points in 3-D (thorough), from_points_and_conics symbolically (nested complex radicals; only a supplementary concrete lattice case with weighted representatives, not a solver verdict), rounding",
     "assumptions": ["np.cos/np.sin of a symbolic angle: Pythagoras + addition theorem (stub)", "np.linalg.solve/inv exact (stub)", "ProjectiveTensor.__eq__/is_multiple: lemma proved in C20"],
 }
 
@@ -101,6 +101,19 @@ def case_rotation3d(ctx):
     # the property fixes the amount |theta| of the turn, not its sense (the library turns clockwise seen from the tip of the axis)
 
 
+def case_rotation3d_weight(ctx):
+    """the rotation about the axis through the origin and a point does not depend on the weight (in particular not on the sign) of the
+    homogeneous representative of that point: same matrix as for weight 1, so the sense of rotation is the same too"""
+    from geometer import rotation, Point
+    th, c, s = _angle(ctx, "theta")
+    w = ctx.real("w")
+    ctx.assume(ctx.neg(ctx.is_zero(w)))
+    for ax in ([1, 2, 2], [0, 3, -4], [2, -1, 2]):
+        T = rotation(th, axis=Point(mk_array(ctx, [w * x for x in ax] + [w])))
+        T1 = rotation(th, axis=Point(ctx.const(ax + [1], float)))
+        ctx.require(f"rotation3d:axis{ax}:independent-of-the-weight-of-the-axis-point", ctx.all([ctx.eq(u, v) for u, v in zip(E(T.array), E(T1.array))]))
+
+
 def case_scaling(ctx):
     from geometer import scaling, Point
     f = [ctx.real(f"f{i}") for i in range(3)]
@@ -163,6 +176,56 @@ def case_identity_affine(ctx):
     ctx.require("affine_transform:matrix", ctx.all([ctx.eq(A[i][j], ref[i][j]) for i in range(3) for j in range(3)]))
 
 
+def custom_from_points_and_conics(tier, seed):
+    """supplementary, NOT a solver verdict (nested complex radicals: the symbolic query is outside the claim): Transformation.from_points_and_conics for
+    circles through lattice points given by representatives with weights of either sign: the three points and the conic go where they should"""
+    import itertools
+    import time
+    from geometer import Circle, Point, Transformation
+    t0 = time.time()
+    res = {"paths": 0, "forks": 0, "obligations": 0, "ob_total": 0, "violations": [], "inconclusive": [], "samples": [], "by_step": {"evaluated": 0},
+           "outcomes": {}, "reach": {}, "validated": 0, "solver_time": 0.0}
+    seen = set()
+    confs = [((0, 0), 1, [(0, -1), (0, 1), (1, 0)], (0, 2), 2, [(0, 0), (0, 4), (2, 2)]),
+             ((1, -1), 5, [(4, 3), (-2, 3), (1, 4)], (-2, 0), 5, [(1, 4), (3, 0), (-5, 4)]),
+             ((1, -1), 5, [(1, 4), (4, 3), (-2, 3)], (-2, 0), 5, [(-5, 4), (1, 4), (3, 0)])]
+    weights = [(1, 1, 1), (1, 1, 2), (1, 1, -0.5), (3, -2, 0.25), (-1, 2, 4)]
+    for ci, (c1, r1, src, c2, r2, dst) in enumerate(confs):
+        for w1, w2 in itertools.product(weights, weights[:3]):
+            res["ob_total"] += 1
+            res["obligations"] += 1
+            res["by_step"]["evaluated"] += 1
+            res["paths"] += 1
+            bad = None
+            try:
+                P1 = [Point(np.array([x * w, y * w, w], dtype=float)) for (x, y), w in zip(src, w1)]
+                P2 = [Point(np.array([x * w, y * w, w], dtype=float)) for (x, y), w in zip(dst, w2)]
+                T = Transformation.from_points_and_conics(P1, P2, Circle(Point(*c1), r1), Circle(Point(*c2), r2))
+                M = np.asarray(T.array, dtype=complex)
+                M = M / np.abs(M).max()
+                if abs(np.linalg.det(M)) < 1e-9:
+                    bad = "from_points_and_conics:singular-matrix"
+                else:
+                    def img(xy):
+                        v = M @ np.array([xy[0], xy[1], 1.0])
+                        return v[:2] / v[2]
+                    if not all(np.allclose(img(a), b, atol=1e-6) for a, b in zip(src, dst)):
+                        bad = "from_points_and_conics:points-not-mapped"
+                    else:
+                        for phi in np.linspace(0.1, 6.2, 9):
+                            x = img((c1[0] + r1 * np.cos(phi), c1[1] + r1 * np.sin(phi)))
+                            dd = x - np.array(c2)
+                            if not np.isclose(np.sqrt(dd[0] * dd[0] + dd[1] * dd[1]), r2, atol=1e-6):
+                                bad = "from_points_and_conics:conic-not-mapped"
+            except Exception as e:
+                bad = f"from_points_and_conics:{type(e).__name__}"
+            if bad and bad not in seen:
+                seen.add(bad)
+                res["violations"].append({"case": "from_points_and_conics_lattice", "obligation": bad, "env": {"config": str(ci), "w1": str(w1), "w2": str(w2)}, "replay": {"failed": [bad]}})
+    res["wall"] = time.time() - t0
+    return res
+
+
 def cases(tier, seed):
     Q, T = ("quick", "thorough"), ("thorough",)
     cs = []
@@ -174,8 +237,10 @@ def cases(tier, seed):
         add(f"translation_{dim}d_point", mk_translation(dim, True), tiers=Q)
     add("rotation_2d", case_rotation2d, tiers=Q)
     add("rotation_3d_axis", case_rotation3d, tiers=Q, max_paths=2000)
+    add("rotation_3d_axis_weight", case_rotation3d_weight, tiers=Q, max_paths=2000)
     add("scaling", case_scaling, tiers=Q)
     add("reflection_2d", case_reflection2d, tiers=Q, max_paths=2000)
     add("from_points_2d", case_from_points2d, tiers=Q, max_paths=2000)
     add("identity_affine", case_identity_affine, tiers=Q)
+    cs.append(Case("from_points_and_conics_lattice", custom_from_points_and_conics, kind="custom"))
     return cs
